@@ -480,6 +480,8 @@ class Writer:
     def __init__(self):
         self.out = bytearray()
         self.mask = bytearray()
+        # (start, size, union data mask, mask of the member the library's writer selects) per fixed-size union
+        self.unions = []
 
     def tell(self):
         return len(self.out)
@@ -604,6 +606,7 @@ def dump_struct(node, v, cfg, w):
         size = lay["size"]
         out = bytearray(size)
         mask = bytearray(size)
+        member_masks = []
         for i, f in enumerate(fields):
             sw = Writer()
             dump(f["t"], v[fkey(i, f)], cfg, sw)
@@ -611,6 +614,11 @@ def dump_struct(node, v, cfg, w):
                 m = sw.mask[j]
                 out[j] = (out[j] & ~m & 0xFF) | (sw.out[j] & m)
                 mask[j] |= m
+            member_masks.append(bytes(sw.mask[:size]).ljust(size, b"\x00"))
+            for (s0, n0, um, cm) in sw.unions:
+                w.unions.append((start + s0, n0, um, cm))
+        sel = lib_union_write_choice(node, cfg)
+        w.unions.append((start, size, bytes(mask), member_masks[sel] if sel is not None else bytes(size)))
         w.put_masked(bytes(out), bytes(mask))
         return
     unit = None  # [value, mask, remaining, total, size]
@@ -650,6 +658,41 @@ def dump_struct(node, v, cfg, w):
         w.pad_to(start + lay["size"])
     elif cfg.align:
         w.pad_to(roundup(w.tell(), lay["alignment"]))
+
+
+def lib_union_write_choice(node, cfg):
+    """Index of the member the library's union writer dumps (used only to classify known finding K1):
+    members sorted by size, largest first (stable); anonymous structures are tried last."""
+    fields = node["fields"]
+    order = sorted(range(len(fields)), key=lambda i: -(size_of(fields[i]["t"], cfg) or 0))
+    anon = None
+    for i in order:
+        f = fields[i]
+        if f["t"]["k"] == "struct" and f["name"] is None:
+            anon = i
+            continue
+        if (size_of(f["t"], cfg) or 0) > 0:
+            return i
+        # a zero-size first choice writes nothing; the writer then falls back to the anonymous structure
+        return anon if anon is not None else i
+    return anon
+
+
+def k1_bits(w_unions, total):
+    """Bit mask (bytes) of bits that are data in some union member but not in the member the library dumps."""
+    out = bytearray(total)
+    for (s0, n0, um, cm) in w_unions:
+        for j in range(n0):
+            if s0 + j < total:
+                out[s0 + j] |= um[j] & ~cm[j] & 0xFF
+    return bytes(out)
+
+
+def dump_full(node, v, cfg):
+    """-> (bytes, mask, k1 bit mask)"""
+    w = Writer()
+    dump(node, v, cfg, w)
+    return bytes(w.out), bytes(w.mask), k1_bits(w.unions, len(w.out))
 
 
 def flush_unit(unit, w, cfg):
